@@ -70,7 +70,13 @@ def build(loads, dist, shape, history='fresh'):
                 w.drain()
                 w.apply(('proc', i, 'ld:' + name, 'run'))
                 w.drain()
-    if history == 'a-running':
+    if history == 'a-stuck':
+        # app:a was requested through Supvisors and never reached RUNNING: the request has been given up (forced
+        # FATAL is displayed) while the process is still STARTING
+        w.user_rpc(0, 'start_process', ('CONFIG', 'app:a', '', False))
+        w.drain()
+        w.round_robin(5)
+    elif history == 'a-running':
         # the application is partly running: app:a was started on its own
         w.apply(('ustart', 0, 'app:a'))
         w.drain()
@@ -201,6 +207,9 @@ def main():
             # a required program that does not fit, in an application that is partly running (STOP strategy)
             jobs.append((loads, 'ALL_INSTANCES', 'reqfail', st, 0, 1, 'process:b', 'a-running'))
             jobs.append((loads, 'ALL_INSTANCES', 'reqfail', st, 2, 2, 'application', 'fresh'))
+            # a forced state hides a process that is still starting
+            for shape in ('flat', 'seq'):
+                jobs.append((loads, 'ALL_INSTANCES', shape, st, 0, 1, 'application', 'a-stuck'))
     workers = int(os.environ.get('VERIF_WORKERS', '16'))
     ctx = multiprocessing.get_context('fork')
     with ctx.Pool(workers) as pool:
